@@ -346,9 +346,31 @@ fn run_trace_cfg(ncoll: u64, maxd: u64, ops: &[Op]) -> (String, bool) {
 // ------------------------------------------------------------------------------------ generators
 const VALS: [f32; 12] = [0.0, -0.0, 1.0, -1.0, 0.5, 2.0, 3.0, -2.0, 0.25, 1e-7, -0.75, 4.0];
 
+/// components of non-zero vectors whose L2 norm is far below f32::EPSILON (squares still representable)
+const TINY: [f32; 6] = [5e-8, 1e-8, -3e-8, 2e-9, 1e-7, -6e-8];
+/// components of vectors with a huge norm (squares and 4-term sums stay finite)
+const HUGE: [f32; 4] = [1e18, -5e17, 3e17, -1e18];
+
 fn gen_vec(r: &mut Rng, dim: usize, dist: &mut Dist) -> V {
-    let mode = r.below(10);
+    let mode = r.below(12);
     let v: Vec<f32> = match mode {
+        10 => {
+            // 0 < norm < 1.2e-7: every component tiny, some zero
+            dist.hit("vec.tiny_norm");
+            let mut v: Vec<f32> = (0..dim).map(|_| if r.chance(1, 3) { 0.0 } else { *r.pick(&TINY[..4]) }).collect();
+            if v.iter().all(|x| *x == 0.0) {
+                v[0] = 5e-8;
+            }
+            v
+        }
+        11 => {
+            dist.hit("vec.huge_norm");
+            let mut v: Vec<f32> = (0..dim).map(|_| if r.chance(1, 3) { 0.0 } else { *r.pick(&HUGE) }).collect();
+            if v.iter().all(|x| *x == 0.0) {
+                v[0] = 1e18;
+            }
+            v
+        }
         0 => {
             dist.hit("vec.zero");
             vec![0.0; dim]
@@ -626,6 +648,40 @@ fn main() {
         let (t, _) = run_trace_cfg(2, 3, &batch_partial);
         trace.push(&t, &format!("corpus max_dimension=3 batch with a rejected element in the middle ops={:?}", batch_partial), true);
         dist.hit("corpus");
+        // tiny-norm and huge-norm vectors behind a cached index: the index must report the exact scan's
+        // scores (norm 1e-7 is not a zero vector), for stored vectors and for queries
+        let small = vec![b32(5e-8), b32(5e-8), b32(5e-8), b32(5e-8)];
+        let unit = vec![b32(1.0), b32(0.0), b32(0.0), b32(0.0)];
+        let mixed = vec![b32(1.0), b32(1.0), b32(1.0), b32(0.2)];
+        let neg = vec![b32(-1.0), b32(-1.0), b32(-1.0), b32(-1.0)];
+        let big = vec![b32(1e18), b32(1e18), b32(0.0), b32(-5e17)];
+        let q4 = vec![b32(1.0), b32(1.0), b32(1.0), b32(1.0)];
+        let qtiny = vec![b32(1e-7), b32(0.0), b32(0.0), b32(0.0)];
+        let qbig = vec![b32(1e18), b32(3e17), b32(0.0), b32(0.0)];
+        let norms = vec![
+            Op::Store(0, 0, small.clone()),
+            Op::Store(0, 1, unit.clone()),
+            Op::Store(0, 2, mixed.clone()),
+            Op::Store(0, 3, neg.clone()),
+            Op::Store(0, 4, big.clone()),
+            Op::Search(0, q4.clone(), 5),
+            Op::Search(0, qtiny.clone(), 5),
+            Op::Build(0),
+            Op::Search(0, q4.clone(), 5),
+            Op::Search(0, q4.clone(), 1),
+            Op::Search(0, qtiny.clone(), 5),
+            Op::Search(0, qbig.clone(), 3),
+            Op::Search(0, small.clone(), 2),
+            Op::Store(1, 0, small.clone()),
+            Op::Store(1, 1, unit.clone()),
+            Op::Store(1, 2, big.clone()),
+            Op::Build(1),
+            Op::Search(1, q4.clone(), 3),
+            Op::Search(1, qtiny.clone(), 3),
+        ];
+        let (t, _) = run_trace(2, &norms);
+        trace.push(&t, &format!("corpus tiny-norm / huge-norm vectors and queries with a cached index ops={:?}", norms), true);
+        dist.hit("corpus");
         // partly filled oversample windows, default and named collection
         let mut cr = Rng::new(0xC06);
         for c in [1u64, 0, 1, 0] {
@@ -713,22 +769,39 @@ fn main() {
         for _ in 0..n {
             let v: Vec<f32> = if rng.chance(1, 10) && !vs.is_empty() {
                 rng.pick(&vs).clone() // duplicates
+            } else if rng.chance(1, 8) {
+                dist.hit("hnsw.tiny_norm_vector");
+                let mut v: Vec<f32> = (0..dim).map(|_| if rng.chance(1, 3) { 0.0 } else { *rng.pick(&TINY[..4]) }).collect();
+                v[0] = *rng.pick(&TINY[..3]);
+                v
+            } else if rng.chance(1, 12) {
+                dist.hit("hnsw.huge_norm_vector");
+                (0..dim).map(|_| *rng.pick(&HUGE)).collect()
+            } else if rng.chance(1, 20) {
+                vec![0.0; dim]
             } else {
                 (0..dim).map(|_| (rng.below(2001) as f32 - 1000.0) / 250.0).collect()
             };
             index.insert(v.clone());
             vs.push(v);
         }
-        let q: Vec<f32> = (0..dim).map(|_| (rng.below(2001) as f32 - 1000.0) / 250.0).collect();
+        let q: Vec<f32> = if rng.chance(1, 8) {
+            dist.hit("hnsw.tiny_norm_query");
+            let mut q = vec![0.0; dim];
+            q[0] = *rng.pick(&TINY[..3]);
+            q[dim - 1] = *rng.pick(&TINY[..4]);
+            q
+        } else if rng.chance(1, 12) {
+            (0..dim).map(|_| *rng.pick(&HUGE)).collect()
+        } else {
+            (0..dim).map(|_| (rng.below(2001) as f32 - 1000.0) / 250.0).collect()
+        };
         let k = *rng.pick(&[1usize, 3, 10, 50, 300]);
         let ef = *rng.pick(&[1usize, 10, 50, 200]);
         let hits = if rng.chance(1, 2) { index.search(&q, k) } else { index.search_with_ef(&q, k, ef) };
         let truth: Vec<u32> = vs
             .iter()
-            .map(|v| {
-                let d = EmbeddingStorage::from(v.clone()).distance_dense(&q, HNSWDistanceMetric::Cosine);
-                HNSWDistanceMetric::Cosine.to_similarity(d).to_bits()
-            })
+            .map(|v| VectorEngine::compute_similarity(&q, v).map(|x| x.to_bits()).unwrap_or(0x7fc0_0000))
             .collect();
         dist.hit(&format!("hnsw.n.{}", if n < 10 { "lt10" } else if n < 50 { "lt50" } else { "ge50" }));
         let term = format!(
